@@ -66,6 +66,7 @@ inductive Err where
   | noType         -- `Open`: "database type not provided!"
   | notLocal       -- `Open`: "database doesn't exist: %s"
   | noManifest     -- `Open`: "unable to fetch database manifest"
+  | nameMismatch   -- `Open`: "manifest '%s' cannot be opened as '%s'" (after the `fix:` commit, finding F52)
   | unsupported    -- `createStore`: "store type %s is not supported"
   | diverges       -- unreachable (U8)
 deriving DecidableEq, Repr, Inhabited
@@ -151,10 +152,25 @@ def create (s : St) (name ty : String) (o : Opts) : Except Err Out × St :=
       else if o.storeType == "" then (.error .noType, s2)
       else (.error .diverges, s2)
 
-/-- `Open(dbAddress, options)` -/
+/-- the address names the database its manifest describes: the address rebuilt from the root and the
+NAME recorded in the manifest prints as the address that is being opened -/
+def named (a : Addr) (m : Manifest) : Bool :=
+  match parse isCid (joinAddr a.root m.name) with
+  | some a' => print a' == print a
+  | none => false
+
+/-- `Open(dbAddress, options)`. After the local-only refusal and the manifest fetch (`openValid` has
+both) an address whose path is not the name recorded in the manifest is refused (after the `fix:`
+commit, finding F52: `/orbitdb/<root>/anything` opened as a database of its own — its own log id,
+cache and topic — built from the manifest of the database really named by `<root>`). -/
 def «open» (s : St) (addr : String) (o : Opts) : Except Err Out × St :=
   match parse isCid addr with
-  | some a => openValid s a o
+  | some a =>
+    match fetch s.net a.root with
+    | some m =>
+      if !(o.localOnly && !haveLocal s a) && !named isCid a m then (.error .nameMismatch, s)
+      else openValid s a o
+    | none => openValid s a o
   | none =>
     if !o.create then (.error .createFalse, s)
     else if o.storeType == "" then (.error .noType, s)
